@@ -334,9 +334,19 @@ impl TurnClient {
                 socket.send_to(data, *server).await?;
             }
             TurnTransport::Tcp { write, .. } => {
-                let mut frame = Vec::with_capacity(2 + data.len());
-                frame.extend_from_slice(&(data.len() as u16).to_be_bytes());
+                // RFC 5766 §2.1: towards the TURN server STUN and ChannelData messages
+                // follow each other on the stream without extra framing; a ChannelData
+                // message is padded to a multiple of four bytes (§11.5) and the padding
+                // is not counted in its length field.
+                let is_channel_data = data.first().is_some_and(|b| (0x40..0x80).contains(b));
+                let pad = if is_channel_data {
+                    (4 - data.len() % 4) % 4
+                } else {
+                    0
+                };
+                let mut frame = Vec::with_capacity(data.len() + pad);
                 frame.extend_from_slice(data);
+                frame.resize(data.len() + pad, 0);
                 write.lock().await.write_all(&frame).await?;
             }
         }
@@ -363,24 +373,30 @@ impl TurnClient {
                 Ok(len)
             }
             TurnTransport::Tcp { read, .. } => {
-                let mut header = [0u8; 2];
+                // Both message kinds carry their length in bytes 2..4: a STUN message is
+                // 20 + length bytes long, a ChannelData message 4 + length bytes plus
+                // padding to a multiple of four, which is consumed but not returned.
+                let mut header = [0u8; 4];
                 let mut stream = read.lock().await;
                 stream.read_exact(&mut header).await?;
-                let len = u16::from_be_bytes(header) as usize;
+                let length = u16::from_be_bytes([header[2], header[3]]) as usize;
+                let (len, pad) = if (0x40..0x80).contains(&header[0]) {
+                    (4 + length, (4 - length % 4) % 4)
+                } else {
+                    (20 + length, 0)
+                };
                 if len > buf.len() {
                     bail!(
-                        "TURN TCP frame of {} bytes exceeds the {} byte receive buffer",
+                        "TURN TCP message of {} bytes exceeds the {} byte receive buffer",
                         len,
                         buf.len()
                     );
                 }
-                let mut offset = 0;
-                while offset < len {
-                    let read = stream.read(&mut buf[offset..len]).await?;
-                    if read == 0 {
-                        bail!("TURN TCP stream closed");
-                    }
-                    offset += read;
+                buf[..4].copy_from_slice(&header);
+                stream.read_exact(&mut buf[4..len]).await?;
+                if pad > 0 {
+                    let mut padding = [0u8; 3];
+                    stream.read_exact(&mut padding[..pad]).await?;
                 }
                 Ok(len)
             }
